@@ -54,6 +54,7 @@ type Case struct {
 	SettleKind string    `json:"settlekind"`
 	FinalBals  [2]uint64 `json:"finalbals"`        // sub-channel final balances by role (same sum as SubBals)
 	MidPay     uint64    `json:"midpay,omitempty"` // ordinary payment of the adversary to the honest party between the finalisation of the sub-channel and its settlement
+	App        string    `json:"app,omitempty"`    // "" = no app, "payment" = the payment app (money flows only from the actor to the others); no sub-channel then
 }
 
 var craftKinds = []string{"none", "none", "actor-honest", "actor-out-of-range", "sig-other-state", "sig-other-key", "sig-garbage", "sig-short",
@@ -87,6 +88,10 @@ func drawCase(t *rapid.T) Case {
 	tot := c.SubBals[0] + c.SubBals[1]
 	fm := uint64(rapid.IntRange(0, int(tot)).Draw(t, "finalM"))
 	c.FinalBals = [2]uint64{fm, tot - fm}
+	if rapid.IntRange(0, 3).Draw(t, "payapp") == 0 {
+		// the payment app forbids the funding of sub-channels (both balances drop)
+		c.App, c.WithSub = "payment", false
+	}
 	if rapid.IntRange(0, 2).Draw(t, "hasmidpay") == 0 || c.SettleKind == "stale-base" {
 		c.MidPay = uint64(rapid.IntRange(1, 9).Draw(t, "midpay"))
 	}
@@ -164,7 +169,7 @@ func validSuccessor(cur, next *channel.State, nparts int) string {
 	switch {
 	case next.ID != cur.ID:
 		return "foreign id"
-	case !channel.IsNoApp(next.App):
+	case channel.IsNoApp(cur.App) != channel.IsNoApp(next.App) || (!channel.IsNoApp(cur.App) && !cur.App.Def().Equal(next.App.Def())):
 		return "other app"
 	case next.Version != cur.Version+1:
 		return "not the next version"
@@ -245,6 +250,7 @@ type world struct {
 	subParams    *channel.Params       // sub-channel H takes part in (hand-made), if any
 	subInit      *channel.State        // its version 0
 	subFinal     *channel.State        // its final state once H enabled one
+	payment      bool                  // the channel runs the payment app
 }
 
 // judge decides whether a signature of the honest party over `next`, given its
@@ -270,6 +276,18 @@ func (w *world) judge(cur, next *channel.State, peerSig wallet.Sig) string {
 		}
 		if info.actor != w.mIdx {
 			return "ordinary update that does not name the sender as actor"
+		}
+		if w.payment {
+			// the app's transition rule, from its documentation: money flows only
+			// from the actor to the other participants
+			for a := range cur.Balances {
+				for p := range cur.Balances[a] {
+					d := next.Balances[a][p].Cmp(cur.Balances[a][p])
+					if (p == int(info.actor) && d > 0) || (p != int(info.actor) && d < 0) {
+						return fmt.Sprintf("not a valid successor: the payment app forbids it (participant %d's balance of asset %d goes from %v to %v with actor %d)", p, a, cur.Balances[a][p], next.Balances[a][p], info.actor)
+					}
+				}
+			}
 		}
 		return ""
 	case len(added) == 1 && len(removed) == 0:
@@ -468,12 +486,20 @@ func runCase(c Case) *h.Outcome {
 	for i := 0; i < 2; i++ {
 		L.Credit(pr.P[i].Name, pr.P[i].Acc.Address(), asset0, big.NewInt(1000))
 	}
-	if err := pr.Open(M, []uint64{asset0}, [][2]*big.Int{{big.NewInt(50), big.NewInt(50)}}, nil, 10, nil, nil); err != nil {
+	var app channel.App
+	var appData channel.Data
+	if c.App == "payment" {
+		def := make([]byte, 64)
+		def[0] = gen.PaymentDefByte
+		app, appData = gen.AppSpec{Kind: "payment", Def: gen.HexOf(def)}.Build(), channel.NoData()
+		o.Class("app:payment")
+	}
+	if err := pr.Open(M, []uint64{asset0}, [][2]*big.Int{{big.NewInt(50), big.NewInt(50)}}, nil, 10, app, appData); err != nil {
 		return fail("harness-open", "honest opening failed: %v", err)
 	}
 	hch, mch := pr.Ch[H], pr.Ch[M]
 	adv, hon := pr.P[M], pr.P[H]
-	w := &world{hIdx: hch.Idx(), mIdx: mch.Idx(), nparts: 2, mAddr: adv.Acc.Address(), crafted: map[string]signedInfo{}, ownProposals: map[string]bool{}}
+	w := &world{hIdx: hch.Idx(), mIdx: mch.Idx(), nparts: 2, mAddr: adv.Acc.Address(), crafted: map[string]signedInfo{}, ownProposals: map[string]bool{}, payment: c.App == "payment"}
 	for i := 0; i < c.Honest; i++ {
 		by := i % 2
 		tr := sim.Transfer(0, sim.Idx(pr.Ch[by]), big.NewInt(int64(1+i)), false)
